@@ -11,13 +11,14 @@ from ..bytedom import _CTYPE
 from ..callgraph import CallGraph
 from ..model import access_mode
 from ..affine import lin, single_defs, induction_bound
-from ..util import site, guards, stores_to_field, member_accesses, macro_of_const, if_chain, const_value
+from ..util import site, guards, stores_to_field, member_accesses, macro_of_const, if_chain, const_value, local_defs
 
 READERS = ("read_fasta", "read_clu", "read_msf")
 
 
 def describe(ck):
     ck.rule("R04a", "read_fasta / read_clu / read_msf contain the same character-classification chain (histogram; isalpha -> append, len++, growth check; ispunct -> gaps[len]++)")
+    ck.rule("R04j", "read_msf: the block loop starts on the line after the '//' divider (header and block phase partition the lines)")
     ck.rule("R04i", "per byte value: every letter is appended, every punctuation character counted as a gap, the three readers treat all 128 byte values alike, and a letter and its case twin take the same branch")
     ck.rule("R04b", "gap slots: every loop that zeroes, totals or materialises gaps covers 0..len of every sequence; UNALIGNED is assigned only where all gaps are zero; nothing before the merge phase reads gaps")
     ck.rule("R04c", "kalign_read_input accumulates: *msa receives the new msa only when it was NULL, otherwise merge_msa; never NULL; merge_msa recomputes alphabet, status and profiles")
@@ -218,6 +219,61 @@ def r04i(ck, prog, rule="R04i", case_only=False):
                 ck.violation(rule, "%s/%s/differs" % (rule, r), site(prog, maps[r][1], r),
                              "%s and %s treat %d byte value(s) differently, e.g. %r: %s vs %s" % (
                                  r, ref, len(diff), chr(b), list(maps[r][0][b]) or "ignored", list(maps[ref][0][b]) or "ignored"), prog.config)
+
+
+def r04j(ck, prog, rule="R04j"):
+    """read_msf reads a file in two phases, header lines up to the '//' divider and block lines after it: the block loop
+    starts on the line after the divider (the divider is not read as a row of the first block, and no line is skipped)"""
+    F = prog.fn("read_msf")
+    loops = [l for l in F.body.find("ForStmt") if not any(a.k in ("ForStmt", "WhileStmt") for a in l.ancestors())]
+    H = next((l for l in loops if any(b.k == "BreakStmt" and any("//" in (x.d.get("s") or "") for c, _ in guards(b, stop=l) for x in c.find("StringLiteral"))
+                                      for b in l.find("BreakStmt"))), None)
+    if H is None:
+        raise AnalysisBroken("%s: header loop of read_msf (break on the '//' divider) not found" % rule)
+    after = [l for l in loops if l.line > H.line]
+    if not after:
+        raise AnalysisBroken("%s: block loop of read_msf not found" % rule)
+    B = after[0]
+    hv = H.child("inc").strip().kids[0].strip() if H.child("inc") is not None else None
+    if hv is None or hv.k != "DeclRefExpr":
+        raise AnalysisBroken("%s: header loop variable not recognised" % rule)
+    # offset of the block loop's first index relative to the divider's index k (= value of the header variable at the break)
+    init = B.child("init")
+    off = None
+    how = ""
+    if init is None:
+        bv = B.child("inc").strip().kids[0].strip() if B.child("inc") is not None else None
+        if bv is not None and bv.k == "DeclRefExpr" and bv.d["did"] == hv.d["did"]:
+            off, how = 0, "continues with the header loop's variable"
+    elif init.k == "BinaryOperator" and init.d["op"] == "=":
+        r = init.kids[1].strip(casts=True)
+        if r.k == "DeclRefExpr" and r.d["did"] == hv.d["did"]:
+            off, how = 0, "starts at the header loop's variable"
+        elif r.k == "BinaryOperator" and r.d["op"] == "+" and r.kids[0].strip(casts=True).k == "DeclRefExpr" \
+                and r.kids[0].strip(casts=True).d["did"] == hv.d["did"] and r.kids[1].cv is not None:
+            off, how = r.kids[1].cv, "starts at %s" % r.text()
+        elif r.k == "DeclRefExpr" and r.d.get("dk") == "Var":
+            # a counter: initialised to c0 before the header loop, incremented exactly once per iteration, before the divider test
+            defs = local_defs(F, r.d["did"])
+            inits = [d for d, nd in defs if d is not None and not nd.within(H)]
+            incs = [nd for d, nd in defs if d is None and nd.within(H)]
+            others = [nd for d, nd in defs if d is not None and nd.within(H)]
+            brk = next(b for b in H.find("BreakStmt"))
+            if len(inits) == 1 and const_value(inits[0]) is not None and len(incs) == 1 and not others and incs[0].k == "UnaryOperator" \
+                    and incs[0].d["op"] == "++" and not guards(incs[0], stop=H) and incs[0].line < brk.line:
+                hinit = H.child("init")
+                h0 = const_value(hinit.kids[1]) if hinit is not None and hinit.k == "BinaryOperator" else None
+                if h0 is not None:
+                    off, how = const_value(inits[0]) + 1 - h0, "starts at the counter %s, which is the divider's index + %d there" % (r.d["name"], const_value(inits[0]) + 1 - h0)
+    if off is None:
+        raise AnalysisBroken("%s: where the block loop of read_msf starts relative to the divider line is not decided for this shape" % rule)
+    where = site(prog, B, "block loop")
+    ck.inst(rule, where, "read_msf: the block loop %s: first line read = divider + %d" % (how, off), prog.config)
+    if off != 1:
+        ck.violation(rule, "%s/read_msf/block-start" % rule, where,
+                     "the block loop of read_msf %s, i.e. at the divider line %+d: %s" % (
+                         how, off, "the '//' line itself is read as the first row of the first block, every row of a block that follows "
+                         "'//' directly is attached to the next sequence" if off < 1 else "the first line(s) after '//' are skipped"), prog.config)
 
 
 def r04a(ck, prog):
@@ -581,6 +637,7 @@ def run(ck, progs):
     for cfg, prog in progs.items():
         ck.attempt(r04a, ck, prog)
         ck.attempt(r04i, ck, prog)
+        ck.attempt(r04j, ck, prog)
         ck.attempt(r04b, ck, prog)
         from . import c01
         ck.attempt(c01.dealign_rule, ck, prog, "R04b")
